@@ -102,6 +102,10 @@ pub fn argv() -> Option<Vec<String>> {
 
 pub fn stdout_print(args: fmt::Arguments) {
     let text = args.to_string();
+    // whatever an earlier unterminated write left in the line buffer goes out first
+    if let Err(e) = line_buffer::flush() {
+        panic!("failed printing to stdout: {e}");
+    }
     if let Err(e) = world().stdout_print(&text) {
         panic!("failed printing to stdout: {e}");
     }
@@ -346,22 +350,125 @@ impl Drop for StdoutLock {
         world().stdout_unlock();
     }
 }
+/// std's stdout is line buffered: a write goes through to the descriptor up to its last
+/// newline, whatever follows stays in a 1 KiB buffer until the next newline, an explicit flush,
+/// or the clean-up at process exit - which ignores errors. This stand-in keeps that behaviour
+/// (after `std::io::LineWriter`), because what is lost in that buffer is lost silently.
+mod line_buffer {
+    use super::world;
+    use ::std::io;
+    use ::std::sync::Mutex;
+
+    const CAPACITY: usize = 1024;
+    static BUFFER: Mutex<Vec<u8>> = Mutex::new(Vec::new());
+
+    fn flush_buf(buf: &mut Vec<u8>) -> io::Result<()> {
+        let mut written = 0;
+        let mut result = Ok(());
+        while written < buf.len() {
+            match world().stdout_write(&buf[written..]) {
+                Ok(0) => {
+                    result = Err(io::Error::new(
+                        io::ErrorKind::WriteZero,
+                        "failed to write the buffered data",
+                    ));
+                    break;
+                }
+                Ok(n) => written += n,
+                Err(e) if e.kind() == io::ErrorKind::Interrupted => {}
+                Err(e) => {
+                    result = Err(e);
+                    break;
+                }
+            }
+        }
+        buf.drain(..written);
+        result
+    }
+
+    fn buffered_write(buf: &mut Vec<u8>, data: &[u8]) -> io::Result<usize> {
+        if buf.len() + data.len() > CAPACITY {
+            flush_buf(buf)?;
+        }
+        if data.len() >= CAPACITY {
+            world().stdout_write(data)
+        } else {
+            buf.extend_from_slice(data);
+            Ok(data.len())
+        }
+    }
+
+    pub fn write(data: &[u8]) -> io::Result<usize> {
+        let mut buf = BUFFER.lock().unwrap_or_else(|e| e.into_inner());
+        match data.iter().rposition(|b| *b == b'\n') {
+            None => {
+                if buf.last() == Some(&b'\n') {
+                    flush_buf(&mut buf)?;
+                }
+                buffered_write(&mut buf, data)
+            }
+            Some(last_newline) => {
+                let lines = &data[..=last_newline];
+                flush_buf(&mut buf)?;
+                let flushed = world().stdout_write(lines)?;
+                if flushed == 0 {
+                    return Ok(0);
+                }
+                let tail: &[u8] = if flushed >= lines.len() {
+                    &data[lines.len()..]
+                } else if lines.len() - flushed <= CAPACITY {
+                    &lines[flushed..]
+                } else {
+                    let scan = &lines[flushed..][..CAPACITY];
+                    match scan.iter().rposition(|b| *b == b'\n') {
+                        Some(i) => &scan[..=i],
+                        None => scan,
+                    }
+                };
+                let room = CAPACITY.saturating_sub(buf.len());
+                let take = tail.len().min(room);
+                buf.extend_from_slice(&tail[..take]);
+                Ok(flushed + take)
+            }
+        }
+    }
+
+    pub fn flush() -> io::Result<()> {
+        let mut buf = BUFFER.lock().unwrap_or_else(|e| e.into_inner());
+        flush_buf(&mut buf)?;
+        world().stdout_flush()
+    }
+
+    /// What the runtime does when `main` returns: one attempt, errors ignored.
+    pub fn flush_at_exit() {
+        if let Ok(mut buf) = BUFFER.try_lock() {
+            let _ = flush_buf(&mut buf);
+            buf.clear();
+        }
+    }
+}
+
+/// To be called by the harness after the program's `main` has returned.
+pub fn flush_stdout_at_exit() {
+    line_buffer::flush_at_exit()
+}
+
 impl Write for Stdout {
     fn write(&mut self, buf: &[u8]) -> io::Result<usize> {
         // like std: one write on the unlocked handle takes the lock for just that write; the
         // world makes the write atomic and makes it wait while another thread holds the lock
-        world().stdout_write(buf)
+        line_buffer::write(buf)
     }
     fn flush(&mut self) -> io::Result<()> {
-        world().stdout_flush()
+        line_buffer::flush()
     }
 }
 impl Write for StdoutLock {
     fn write(&mut self, buf: &[u8]) -> io::Result<usize> {
-        world().stdout_write(buf)
+        line_buffer::write(buf)
     }
     fn flush(&mut self) -> io::Result<()> {
-        world().stdout_flush()
+        line_buffer::flush()
     }
 }
 impl IsTerminal for Stdout {
